@@ -267,12 +267,81 @@ fn parse_report(text: &str, cmp: &[&Interface<'_>]) -> Value {
     }
 }
 
+/// CRC-32 (IEEE, reflected) — what Python's zlib.crc32 computes.
+fn crc32(data: &[u8]) -> u32 {
+    let mut crc = 0xFFFF_FFFFu32;
+    for &b in data {
+        crc ^= b as u32;
+        for _ in 0..8 {
+            crc = if crc & 1 != 0 { (crc >> 1) ^ 0xEDB8_8320 } else { crc >> 1 };
+        }
+    }
+    !crc
+}
+
+/// Canonical JSON text: compact, object keys sorted (= json.dumps(sort_keys=True, separators=(",", ":"))
+/// for the dumps of this harness, whose strings are hex digits only). Iterative over arrays of any
+/// length; recursion depth = nesting depth of the value.
+fn canon(v: &Value, out: &mut String) {
+    match v {
+        Value::Object(m) => {
+            let mut keys: Vec<&String> = m.keys().collect();
+            keys.sort();
+            out.push('{');
+            for (i, k) in keys.iter().enumerate() {
+                if i > 0 {
+                    out.push(',');
+                }
+                out.push('"');
+                out.push_str(k);
+                out.push_str("\":");
+                canon(&m[*k], out);
+            }
+            out.push('}');
+        }
+        Value::Array(a) => {
+            out.push('[');
+            for (i, x) in a.iter().enumerate() {
+                if i > 0 {
+                    out.push(',');
+                }
+                canon(x, out);
+            }
+            out.push(']');
+        }
+        other => out.push_str(&other.to_string()),
+    }
+}
+
 fn op_parse(case: &Value) -> Value {
     let bytes = unhex(case["text"].as_str().unwrap());
     let text = match String::from_utf8(bytes) {
         Ok(t) => t,
         Err(_) => return json!({"class": "notutf8"}),
     };
+    if case.get("summary").and_then(|b| b.as_bool()).unwrap_or(false) {
+        // large inputs: report a checksum of the canonical dump instead of megabytes of JSON
+        let r = std::panic::catch_unwind(|| match Interface::try_from(text.as_str()) {
+            Ok(i) => {
+                let mut s = String::new();
+                canon(&dump_interface(&i), &mut s);
+                json!({"class": "ok", "tree_crc": crc32(s.as_bytes()), "tree_len": s.len(),
+                       "members": [i.custom_types().count(), i.methods().count(), i.errors().count()]})
+            }
+            Err(e) => json!({"class": "err", "err": e.to_string().chars().take(120).collect::<String>()}),
+        });
+        return match r {
+            Ok(v) => v,
+            Err(p) => {
+                let msg = p
+                    .downcast_ref::<String>()
+                    .cloned()
+                    .or_else(|| p.downcast_ref::<&str>().map(|s| s.to_string()))
+                    .unwrap_or_default();
+                json!({"class": "panic", "panic": msg.chars().take(160).collect::<String>()})
+            }
+        };
+    }
     parse_report(&text, &[])
 }
 
